@@ -53,12 +53,17 @@ def run_family(rep, wd, tier, pid, mc=True):
             verdicts, done, _ = vlib.validate("WalPolicyTrace", "WalPolicyTrace", sub, wd)
             total["events"] += done[0]
             rep.cov["evaluations"] += done[0]
+            # per run: the first verdict that is this property's business, else the first one (a run may be rejected under the
+            # truncation rule of C10 first and under the durability rule of C09 one event later)
+            inscope = lambda w: any(w.startswith(s) or s in w for s in SCOPE[pid])
             first = {}
             for v in verdicts:
-                first.setdefault(v["run"], v)
+                cur = first.get(v["run"])
+                if cur is None or (not inscope(cur.get("what", "")) and inscope(v.get("what", ""))):
+                    first[v["run"]] = v
             for r, v in first.items():
                 what = v.get("what", "rejected")
-                if any(what.startswith(s) or s in what for s in SCOPE[pid]):
+                if inscope(what):
                     case = {"source": f"policy family ({label})", "failed_check": what, "at_event": v.get("l"), "events": runs[r][:300]}
                     rep.classify(None, f"WAL actor (policy family) trace rejected: {what}", case, f"{label} run {r}")
                 else:
